@@ -14,10 +14,11 @@ type srcPlan struct {
 	O        []ocspBehav
 	C        []dpBehav
 	Freshest bool
+	CKinds   []string // URL scheme per distribution point ("" = http)
 }
 
 func (s srcPlan) slots() certSlots {
-	cs := certSlots{NCRL: len(s.C), Freshest: s.Freshest}
+	cs := certSlots{NCRL: len(s.C), Freshest: s.Freshest, CRLKinds: s.CKinds}
 	for _, b := range s.O {
 		switch b.Kind {
 		case "badurl", "scheme":
